@@ -66,6 +66,19 @@ own loop head, so this removes assumptions) and the report is the postcondition
 `growcap/post[atleast]` with `sat`. A closed-form rewrite of a loop that keeps the
 result is therefore no longer an alarm.
 
+A second sixth-session round (C01-7, C09-7, C12-7, C15-7, C20-7): a signed
+`grpc-timeout` through `ParseInt` (`decodeTimeout/post[malformed-refused]`), the
+untrimmed pattern handed to `StripPrefix` (`NewServer` atcall clause), `>=` in the
+WebSocket close-reason truncation (`serveHTTP/inv.init[L1.close-reason]`) and
+`clone` sharing `:verb` segments (`clone/inv.keep[L1.3]`) were caught at first
+run. **C01-7 was missed**: `clone` shares a variable's leaf `next` node with the
+live tree, so a registration that is rejected and thrown away has already
+written its rules into the served tree and a request reaches a method through a
+rule that was never accepted. The freshness clauses of `clone` decided exactly
+that but were tagged for C12 / C16 only; they now serve C01 as well (the
+copy-on-write discipline is what keeps unaccepted rules out of routing) and the
+seed fails `clone/inv.keep[L2.5]`.
+
 Misses of the fifth session and what they prompted (every one is caught now):
 the float narrowing in `parseParam` (C03-1: `conv` reports `float64 -> float32`),
 `quote` (C03-2), body presence (C03-3), the comma in `isPath` (C03-4: the function
